@@ -40,13 +40,26 @@ func newVSrvHandler(n int) *vSrvHandler {
 
 // requests are Twrite{Fid: index, Offset: symbolic marker}
 func (h *vSrvHandler) Handle(ctx context.Context, msg Message) (Message, error) {
-	tw, ok := msg.(MessageTwrite)
-	if !ok {
+	var i int
+	switch m := msg.(type) {
+	case MessageTwrite:
+		i = int(m.Fid)
+		h.seenOff[i] = m.Offset
+	case MessageTclunk:
+		i = int(m.Fid)
+	case MessageTremove:
+		i = int(m.Fid)
+	case MessageTstat:
+		i = int(m.Fid)
+	case MessageTopen:
+		i = int(m.Fid)
+	case MessageTread:
+		i = int(m.Fid)
+		h.seenOff[i] = m.Offset
+	default:
 		return nil, errVMock
 	}
-	i := int(tw.Fid)
 	h.invoked[i]++
-	h.seenOff[i] = tw.Offset
 	h.ctxs[i] = ctx
 	h.started <- i
 	defer func() { h.returned[i] = true }()
@@ -88,6 +101,28 @@ func newVSrv(n int) *vSrv {
 func vReq(i int, tag Tag, marker uint64) *Fcall {
 	return &Fcall{Type: Twrite, Tag: tag, Message: MessageTwrite{Fid: Fid(i), Offset: marker}}
 }
+
+// vReqKind builds request i of one of several kinds (index carried in Fid)
+func vReqKind(kind int, i int, tag Tag, marker uint64) *Fcall {
+	var m Message
+	switch kind {
+	case 1:
+		m = MessageTclunk{Fid: Fid(i)}
+	case 2:
+		m = MessageTremove{Fid: Fid(i)}
+	case 3:
+		m = MessageTstat{Fid: Fid(i)}
+	case 4:
+		m = MessageTopen{Fid: Fid(i)}
+	case 5:
+		m = MessageTread{Fid: Fid(i), Offset: marker, Count: 1}
+	default:
+		m = MessageTwrite{Fid: Fid(i), Offset: marker}
+	}
+	return newFcall(tag, m)
+}
+
+const vNReqKinds = 6
 
 // vResKind draws a handler result carrying `payload`: a message, a 9P error
 // or a plain error (texts are symbolic through the payload byte).
